@@ -12,6 +12,8 @@ import QSP.Model.Jacobian
 import QSP.Model.Generators
 import QSP.Model.Accuracy
 import QSP.Model.FPSearch
+import QSP.Model.Pipeline
+import QSP.Model.Cli
 open QSP QSP.Proto
 
 def bad : String := "bad-op"
@@ -38,6 +40,39 @@ def showGen : Except Err GenOut → String
   | .error e => showErr e
 
 def parseOpts (eb rs cb : String) : GenOpts := ⟨eb = "1", rs = "1", cb = "1"⟩
+
+/-- decimal literal `[+-]digits[.digits][e[+-]digits]` (blanks around it ignored) -/
+def parseDec (cs : List Char) : Option Rat :=
+  let s := (String.ofList cs).trimAscii.toString
+  if s.isEmpty then none else
+  let (mant, ex) := match s.toLower.splitOn "e" with
+    | [m] => (m, some (0 : Int))
+    | [m, e] => (m, (if e.startsWith "+" then (e.drop 1).toString else e).toInt?)
+    | _ => ("", none)
+  match ex with
+  | none => none
+  | some e =>
+    let neg := mant.startsWith "-"
+    let body := if mant.startsWith "-" || mant.startsWith "+" then (mant.drop 1).toString else mant
+    let parts := body.splitOn "."
+    let digits? : Option (String × String) := match parts with
+      | [a] => some (a, "")
+      | [a, b] => some (a, b)
+      | _ => none
+    match digits? with
+    | none => none
+    | some (a, b) =>
+      if (a ++ b).isEmpty || !(a ++ b).all Char.isDigit then none else
+      let n : Nat := (a ++ b).toNat!
+      let q : Rat := (n : Rat) / (10 : Rat) ^ b.length * (10 : Rat) ^ e
+      some (if neg then -q else q)
+
+def hexVal (c : Char) : Nat :=
+  if c.isDigit then c.toNat - 48 else if 'a' ≤ c && c ≤ 'f' then c.toNat - 87 else 0
+
+def unhex : List Char → List Char
+  | a :: b :: rest => Char.ofNat (hexVal a * 16 + hexVal b) :: unhex rest
+  | _ => []
 
 def parseOp (s : String) : Option (Op Rat) :=
   match s.splitOn ":" with
@@ -272,6 +307,26 @@ def handle (toks : List String) : String :=
     match bits.toNat?, d.toNat?, parseRat x, parseRat tol, parseRatList phis with
     | some b, some d, some x, some t, some ph => showV (validFP d ph x t b)
     | _, _, _, _, _ => bad
+  -- decision logic of the entry points --------------------------------------------------------
+  | ["pipe.qsp", so, meas, method, p, c, v] =>
+    let m : Option String := if meas = "-" then none else some meas
+    match qspPhases so m method ⟨p = "1", c = "1", v = "1"⟩ with
+    | .phases => "phases"
+    | .tf => "tf"
+    | .err e => "err:" ++ e.name
+  | ["pipe.completion", ct, a, b] =>
+    match completionDispatch ct (a = "1") (b = "1") with
+    | .ok r => "ok:" ++ r
+    | .error e => "err:" ++ e.name
+  -- command line ---------------------------------------------------------------------------
+  | ["cli.floatlist", hex] =>
+    match floatList parseDec (unhex hex.toList) with
+    | some l => "ok " ++ showRatList l
+    | none => "err:parse"
+  | ["cli.dispatch", cmd, name] =>
+    match dispatchNamed cmd (if name = "-" then none else some name) with
+    | none => "help"
+    | some d => s!"{",".intercalate d.generators}|{d.argsFrom}|{",".intercalate (d.genKw.map fun kv => kv.1 ++ "=" ++ kv.2)}|{d.callsPhaseFinder}"
   -- sup-norm certificate -----------------------------------------------------------------
   | ["sup.real", bnd, depth, d, l] =>
     match parseRat bnd, depth.toNat?, d.toInt?, parseRatList l with
